@@ -59,6 +59,7 @@ class GradientBoostingRegressor(BaseRegressor):
         input_data: NumberArray,
         output_data: NumberArray,
     ) -> None:
+        self.algo = []
         for _output_data in output_data.T:
             self.algo.append(
                 SKLGradientBoosting(
